@@ -1,13 +1,13 @@
 //! C04: typed path attributes encode/decode (src/bgp/path_attributes.rs).
 //!
 //! value   origin:N | aspath:H | nexthop:N | med:N | localpref:N | atomic | aggregator:ASN:ADDR |
-//!         communities:C.C.C (request) / communities:LEN:EXT:C.C.C (reply) | originator:N |
+//!         communities:C.C.C | originator:N |
 //!         clusterlist:N.N | extcomm:HEX.HEX | as4path:H | as4aggregator:ASN:ADDR | connector:N |
 //!         aspathlimit:UB:ASN | ipv6extcomm:HEX.HEX | largecomm:HEX.HEX | otc:N | attrset:ASN:HEX | reserved:HEX
 //! requests  enc VALUE | dec W HEX | decall W HEX | msg HEX
 use crate::common::*;
-use crate::props::c13::{build, erase, field, gen_hop_path, join, parse_api_hops, parse_w, ref_hops,
-    ref_segments, show_hop, THop};
+use crate::props::c13::{build, erase_flat, field, gen_hop_path, gen_hop_path_g, is_flat, join, parse_api_hops, parse_w,
+    ref_hops, ref_segments, show_hop, THop};
 use inetnum::asn::Asn;
 use octseq::Parser;
 use routecore::bgp::aspath::HopPath;
@@ -82,7 +82,7 @@ pub(crate) fn show_v(v: &V) -> String {
         V::LocalPref(n) => format!("localpref:{}", n),
         V::Atomic => "atomic".into(),
         V::Aggregator(a, b) => format!("aggregator:{}:{}", a, b),
-        V::Communities(l) => format!("communities:{}:{}:{}", l.len() * 4, if l.len() * 4 > 255 { 1 } else { 0 }, nats(l)),
+        V::Communities(l) => format!("communities:{}", nats(l)),
         V::Originator(n) => format!("originator:{}", n),
         V::ClusterList(l) => format!("clusterlist:{}", nats(l)),
         V::ExtComm(l) => format!("extcomm:{}", recs(l)),
@@ -98,9 +98,24 @@ pub(crate) fn show_v(v: &V) -> String {
     }
 }
 
-/// request text (communities without the bookkeeping fields)
-pub(crate) fn req_v(v: &V) -> String {
-    match v { V::Communities(l) => format!("communities:{}", nats(l)), _ => show_v(v) }
+/// request text (the same as the reply text)
+pub(crate) fn req_v(v: &V) -> String { show_v(v) }
+
+/// the value a receiver sees: in the hop path of AS_PATH / AS4_PATH a non-empty AS_SEQUENCE held as ONE
+/// segment hop is the ASNs it contains, segment hops are four octets wide; every other kind is itself
+pub(crate) fn normal_form(v: &V) -> V {
+    let nf = |h: &Vec<THop>| -> Vec<THop> {
+        let mut out = Vec::new();
+        for x in h {
+            match x {
+                THop::Asn(a) => out.push(THop::Asn(*a)),
+                THop::Seg(2, _, a) if !a.is_empty() => out.extend(a.iter().map(|y| THop::Asn(*y))),
+                THop::Seg(t, _, a) => out.push(THop::Seg(*t, 4, a.clone())),
+            }
+        }
+        out
+    };
+    match v { V::AsPath(h) => V::AsPath(nf(h)), V::As4Path(h) => V::As4Path(nf(h)), _ => v.clone() }
 }
 
 fn p_u32(s: &str) -> Option<u32> { if !s.is_empty() && s.bytes().all(|c| c.is_ascii_digit()) { s.parse().ok() } else { None } }
@@ -194,18 +209,12 @@ fn to_rc(v: &V) -> PathAttribute {
     }
 }
 
-/// private fields are read off derive(Debug): `key: 123` / `key: Asn(123)` / `key: [1, 2]`
-fn dbg_num(d: &str, key: &str) -> u64 {
-    let i = d.find(key).map(|i| i + key.len()).unwrap_or(0);
-    let t: String = d[i..].chars().skip_while(|c| !c.is_ascii_digit()).take_while(|c| c.is_ascii_digit()).collect();
-    t.parse().unwrap_or(u64::MAX)
-}
-fn dbg_bool(d: &str, key: &str) -> bool { d.find(key).map(|i| d[i + key.len()..].trim_start().starts_with("true")).unwrap_or(false) }
-fn dbg_bytes(d: &str, key: &str) -> Vec<u8> {
-    let i = d.find(key).map(|i| i + key.len()).unwrap_or(0);
-    let r = &d[i..];
-    let (a, b) = (r.find('[').unwrap_or(0), r.find(']').unwrap_or(0));
-    r[a + 1..b].split(',').filter_map(|x| x.trim().parse::<u8>().ok()).collect()
+/// AsPathLimitInfo, AttributeSet and ReservedRaw have private fields and no accessor: their content is
+/// observed through the public API as the value octets `PathAttribute::compose` writes for them
+/// (never off derive(Debug), whose output is no part of any contract).
+fn composed_value(pa: &PathAttribute) -> Option<Vec<u8>> {
+    let b = compose(pa);
+    match ref_split(&b) { Some((_, _, v, rest)) if rest.is_empty() => Some(v.to_vec()), _ => None }
 }
 
 fn show_path(h: &HopPath) -> String { join(h.iter().map(show_hop).collect()) }
@@ -219,12 +228,8 @@ pub(crate) fn show_rc(pa: &PathAttribute) -> String {
         PathAttribute::LocalPref(m) => format!("typed:localpref:{}", m.0),
         PathAttribute::AtomicAggregate(_) => "typed:atomic".into(),
         PathAttribute::Aggregator(a) => format!("typed:aggregator:{}:{}", a.asn().into_u32(), u32::from(a.address())),
-        PathAttribute::StandardCommunities(l) => {
-            let d = format!("{:?}", l);
-            let tail = &d[d.rfind("len:").unwrap_or(0)..];
-            format!("typed:communities:{}:{}:{}", dbg_num(tail, "len:"), if dbg_bool(tail, "extended:") { 1 } else { 0 },
-                l.communities().iter().map(|c| u32::from_be_bytes(c.to_raw()).to_string()).collect::<Vec<_>>().join("."))
-        }
+        PathAttribute::StandardCommunities(l) => format!("typed:communities:{}",
+            l.communities().iter().map(|c| u32::from_be_bytes(c.to_raw()).to_string()).collect::<Vec<_>>().join(".")),
         PathAttribute::OriginatorId(n) => format!("typed:originator:{}", u32::from(n.0)),
         PathAttribute::ClusterList(l) => format!("typed:clusterlist:{}", l.cluster_ids().iter()
             .map(|c| u32::from_be_bytes((*c).into()).to_string()).collect::<Vec<_>>().join(".")),
@@ -232,12 +237,18 @@ pub(crate) fn show_rc(pa: &PathAttribute) -> String {
         PathAttribute::As4Path(p) => format!("typed:as4path:{}", show_path(&p.0)),
         PathAttribute::As4Aggregator(a) => format!("typed:as4aggregator:{}:{}", a.0.asn().into_u32(), u32::from(a.0.address())),
         PathAttribute::Connector(n) => format!("typed:connector:{}", u32::from(n.0)),
-        PathAttribute::AsPathLimit(a) => { let d = format!("{:?}", a); format!("typed:aspathlimit:{}:{}", dbg_num(&d, "upper_bound:"), dbg_num(&d, "attacher:")) }
+        PathAttribute::AsPathLimit(_) => match composed_value(pa) {
+            Some(v) if v.len() == 5 => format!("typed:aspathlimit:{}:{}", v[0], be32(&v[1..])),
+            _ => "typed:aspathlimit:?".into() },
         PathAttribute::Ipv6ExtendedCommunities(l) => format!("typed:ipv6extcomm:{}", l.communities().iter().map(|c| hex(&c.to_raw())).collect::<Vec<_>>().join(".")),
         PathAttribute::LargeCommunities(l) => format!("typed:largecomm:{}", l.communities().iter().map(|c| hex(&c.to_raw())).collect::<Vec<_>>().join(".")),
         PathAttribute::Otc(o) => format!("typed:otc:{}", o.0.into_u32()),
-        PathAttribute::AttrSet(a) => { let d = format!("{:?}", a); format!("typed:attrset:{}:{}", dbg_num(&d, "origin:"), hex(&dbg_bytes(&d, "attributes:"))) }
-        PathAttribute::Reserved(r) => { let d = format!("{:?}", r); format!("typed:reserved:{}", hex(&dbg_bytes(&d, "raw:"))) }
+        PathAttribute::AttrSet(_) => match composed_value(pa) {
+            Some(v) if v.len() >= 4 => format!("typed:attrset:{}:{}", be32(&v), hex(&v[4..])),
+            _ => "typed:attrset:?".into() },
+        PathAttribute::Reserved(_) => match composed_value(pa) {
+            Some(v) => format!("typed:reserved:{}", hex(&v)),
+            None => "typed:reserved:?".into() },
         PathAttribute::Unimplemented(u) => format!("unimpl:{}:{}:{}", u8::from(u.flags()), u.type_code(), hex(u.value())),
         PathAttribute::Invalid(f, c, v) => format!("invalid:{}:{}:{}", u8::from(*f), c, hex(v)),
     }
@@ -269,6 +280,45 @@ pub(crate) fn ref_rule(code: u8, four: bool, v: &[u8]) -> bool {
         2 => ref_segments(v, four).is_some(),
         17 => ref_segments(v, true).is_some(),
         _ => true,
+    }
+}
+
+/// `invalid:<flags>:<code>:<value>` for this code and exactly these value octets
+fn invalid_carries(got: &str, tc: u8, v: &[u8]) -> bool {
+    let p: Vec<&str> = got.split(':').collect();
+    p.len() == 4 && p[0] == "invalid" && p[2] == tc.to_string() && p[3] == hex(v)
+}
+
+/// RFC 4760: a sequence of (length in bits, ceil(length/8) octets) prefixes, no longer than the family allows
+fn plain_prefixes(mut v: &[u8], maxbits: u8) -> bool {
+    while !v.is_empty() {
+        let l = v[0];
+        let n = (l as usize + 7) / 8;
+        if l > maxbits || v.len() < 1 + n { return false; }
+        v = &v[1 + n..];
+    }
+    true
+}
+
+/// how a value of MP_REACH_NLRI (14) / MP_UNREACH_NLRI (15) stands to RFC 4760:
+/// `Short` = shorter than its fixed part (AFI, SAFI[, next-hop length, reserved]): the type's length rule;
+/// `Plain` = unmistakably well formed (IPv4/IPv6 unicast, a next hop of 16 or 32 octets, whole prefixes);
+/// `Other` = anything else (next-hop length overrunning the value, prefix longer than the family, unknown
+///           AFI/SAFI ...): malformed in ways beyond the length rule, or not decidable without the
+///           implementation's family table. The property's "malformation" is read as the length rule of the
+///           fixed part; whether a receiver rejects an `Other` value when it parses the message or later when
+///           it iterates the NLRI is left open, so the oracle accepts both.
+#[derive(PartialEq, Clone, Copy, Debug)]
+pub(crate) enum Mp { Short, Plain, Other }
+pub(crate) fn mp_class(tc: u8, v: &[u8]) -> Mp {
+    if tc == 14 {
+        if v.len() < 5 { return Mp::Short; }
+        let (afi, safi, nh) = (u16::from_be_bytes([v[0], v[1]]), v[2], v[3] as usize);
+        if afi == 2 && safi == 1 && (nh == 16 || nh == 32) && v.len() >= 5 + nh && plain_prefixes(&v[5 + nh..], 128) { Mp::Plain } else { Mp::Other }
+    } else {
+        if v.len() < 3 { return Mp::Short; }
+        let (afi, safi) = (u16::from_be_bytes([v[0], v[1]]), v[2]);
+        if safi == 1 && ((afi == 1 && plain_prefixes(&v[3..], 32)) || (afi == 2 && plain_prefixes(&v[3..], 128))) { Mp::Plain } else { Mp::Other }
     }
 }
 
@@ -427,6 +477,31 @@ impl Prop for C04 {
                 if *code == 7 && n <= 12 { v.push(format!("dec 2 {}", hex(&b))); }
             }
         }
+        // a WELL-FORMED AS_PATH value of every length 0..=300 that has one (four-octet: even lengths; two-octet:
+        // even lengths), in both session widths, for AS_PATH and AS4_PATH - the random bytes above are nearly all
+        // invalid for these two kinds
+        for n in (0..=300usize).step_by(2) {
+            let mut v4: Vec<u8> = Vec::new();
+            if n >= 2 {
+                let body = n - 2 - if n % 4 == 0 { 2 } else { 0 };          // n = 2 + 4a  or  2 + 4a + 2 (an empty AS_SET after it)
+                let a = body / 4;
+                v4.extend([2u8, a as u8]); for i in 0..a { v4.extend((64496u32 + i as u32).to_be_bytes()); }
+                if n % 4 == 0 { v4.extend([1u8, 0]); }
+            }
+            let mut v2: Vec<u8> = Vec::new();
+            if n >= 2 { let a = (n - 2) / 2; v2.extend([if n % 3 == 0 { 3u8 } else { 2 }, a as u8]); for i in 0..a { v2.extend((64496u16 + i as u16).to_be_bytes()); } }
+            for (code, fl) in [(2u8, 0x40u8), (17, 0xC0)] {
+                let mut b = ref_header(fl, code, v4.len()); b.extend(&v4);
+                v.push(format!("dec 4 {}", hex(&b)));
+                v.push(format!("dec 2 {}", hex(&b)));
+                let mut b = ref_header(fl, code, v2.len()); b.extend(&v2);
+                v.push(format!("dec 2 {}", hex(&b)));
+            }
+        }
+        // values past 65535 bytes: the length field saturates (compose_len still equals the bytes written; no
+        // decoding is demanded of them)
+        v.push(format!("enc reserved:{}", hex(&vec![0x5au8; 65536])));
+        v.push(format!("enc attrset:65536:{}", hex(&vec![0xa5u8; 65540])));
         // list-valued kinds at every count around the 255/256-byte boundary
         for n in 0..=70usize { v.push(format!("enc communities:{}", nats(&(0..n as u32).map(|i| i * 65537 + 1).collect::<Vec<_>>())));
                                v.push(format!("enc clusterlist:{}", nats(&(0..n as u32).map(|i| 0xC0000200 + i).collect::<Vec<_>>()))); }
@@ -446,6 +521,23 @@ impl Prop for C04 {
             let h = if n % 3 == 2 && n >= 2 { format!("{},s1/4:65000.65001,{}", run(n / 2, 0), run(n - n / 2, 7)) } else { run(n, 0) };
             if h.is_empty() { continue; }
             v.push(format!("enc {}:{}", if n % 2 == 0 { "aspath" } else { "as4path" }, h));
+        }
+        // AS paths over everything the public API can put into a HopPath: a non-empty AS_SEQUENCE held as ONE
+        // segment hop (decoded as its ASNs: the normal form) and two-octet segment hops; the segment-hop sizes
+        // that take the value across 255 bytes (2 + 4n: n = 63 / 64) and the 254/255-ASN boundary
+        for n in [1usize, 2, 62, 63, 64, 254, 255] {
+            for w in [4, 2] {
+                for ty in [2u8, 1, 3] {
+                    let seg = format!("s{}/{}:{}", ty, w, (0..n).map(|i| (64000 + i).to_string()).collect::<Vec<_>>().join("."));
+                    v.push(format!("enc aspath:{}", seg));
+                    v.push(format!("enc as4path:a1,{},a7", seg));
+                }
+            }
+        }
+        for i in 0..(120 * scale) {
+            let h = gen_hop_path_g(rng);
+            if parse_api_hops(&h).map(|x| x.iter().any(|y| matches!(y, THop::Seg(_, _, a) if a.len() > 255))).unwrap_or(true) { continue; }
+            v.push(format!("enc {}:{}", if i % 2 == 0 { "aspath" } else { "as4path" }, h));
         }
         // random values of every kind
         for i in 0..(1500 * scale) {
@@ -504,6 +596,49 @@ impl Prop for C04 {
             let mut b = vec![0x40, 1, 1, 0]; b.extend(&a); b.extend([0x40, 5, 4, 0, 0, 0, 100]);
             v.push(format!("msg {}", hex(&b)));
         } } }
+        // multiprotocol attributes that are unmistakably well formed (the message must be accepted) and ones
+        // malformed beyond the length rule of the fixed part (next-hop length overrunning the value, a prefix
+        // longer than the family allows or cut short, unknown AFI: accepted by this implementation, which
+        // parses the NLRI lazily; the oracle takes either outcome), alone and among other attributes
+        {
+            let nh16: Vec<u8> = (0..16u8).collect();
+            let mut reach = vec![0u8, 2, 1, 16]; reach.extend(&nh16); reach.push(0);
+            let mut reach_p = reach.clone(); reach_p.extend([32, 0x20, 0x01, 0x0d, 0xb8, 0]);
+            let mut reach_ll = vec![0u8, 2, 1, 32]; reach_ll.extend(&nh16); reach_ll.extend(&nh16); reach_ll.extend([0, 64, 0x20, 0x01, 0x0d, 0xb8, 0, 1, 0, 2]);
+            let vals14: Vec<Vec<u8>> = vec![reach.clone(), reach_p.clone(), reach_ll,
+                vec![0, 1, 1, 4, 0], vec![0, 1, 1, 255, 0], vec![0, 2, 1, 16, 0, 0, 0], { let mut x = reach.clone(); x.extend([129, 0]); x },
+                { let mut x = reach.clone(); x.extend([64, 0x20]); x }, vec![0, 9, 9, 0, 0, 1, 2, 3]];
+            let vals15: Vec<Vec<u8>> = vec![vec![0, 1, 1], vec![0, 2, 1], vec![0, 1, 1, 24, 10, 0, 0], vec![0, 2, 1, 48, 0x20, 0x01, 0x0d, 0xb8, 0, 1],
+                vec![0, 1, 1, 33], vec![0, 1, 1, 24, 10], vec![0, 2, 1, 200, 1], vec![0, 7, 7, 1]];
+            for (code, vals) in [(14u8, &vals14), (15u8, &vals15)] {
+                for val in vals.iter() {
+                    let mut a = vec![0x80, code, val.len() as u8]; a.extend(val);
+                    v.push(format!("msg {}", hex(&a)));
+                    let mut b = vec![0x40, 1, 1, 0]; b.extend(&a); b.extend([0x40, 5, 3, 0, 0, 100]);   // + a LOCAL_PREF of 3 bytes (invalid, not fatal)
+                    v.push(format!("msg {}", hex(&b)));
+                }
+            }
+            // the same MP attribute twice
+            let mut twice = vec![0x80, 15, 3, 0, 1, 1]; twice.extend([0x80, 15, 3, 0, 2, 1]);
+            v.push(format!("msg {}", hex(&twice)));
+            // an MP attribute twice (and both kinds together), ONE occurrence shorter than its fixed part:
+            // the malformation of any occurrence rejects the message, wherever it stands
+            for (code, good, fixed) in [(14u8, &reach_p, 5usize), (15u8, &vals15[2], 3usize)] {
+                for n in 0..fixed { for short_first in [false, true] { for between in [false, true] {
+                    let mut g = vec![0x80, code, good.len() as u8]; g.extend(good.iter());
+                    let mut sh = vec![0x80, code, n as u8]; sh.extend(good.iter().take(n));
+                    let mid: Vec<u8> = if between { vec![0x40, 1, 1, 0] } else { vec![] };
+                    let mut m = Vec::new();
+                    if short_first { m.extend(&sh); m.extend(&mid); m.extend(&g); } else { m.extend(&g); m.extend(&mid); m.extend(&sh); }
+                    v.push(format!("msg {}", hex(&m)));
+                    // ... and next to a well-formed attribute of the other kind
+                    let (oc, og) = if code == 14 { (15u8, &vals15[2]) } else { (14u8, &reach_p) };
+                    let mut o = vec![0x80, oc, og.len() as u8]; o.extend(og.iter());
+                    let mut m2 = o.clone(); m2.extend(&m);
+                    v.push(format!("msg {}", hex(&m2)));
+                } } }
+            }
+        }
         for _ in 0..(300 * scale) {
             let mut sec = Vec::new();
             for _ in 0..rng.usize(0, 4) {
@@ -594,13 +729,19 @@ impl Prop for C04 {
                 let bytes = unhex(reply.split(' ').nth(1).ok_or("short reply")?).ok_or("hex")?;
                 let len: usize = field(reply, "len=").and_then(|x| x.parse().ok()).ok_or("no len")?;
                 if len != bytes.len() { return Err(format!("compose_len() = {} but {} bytes were written", len, bytes.len())); }
-                let hops = match &val { V::AsPath(h) | V::As4Path(h) => Some(erase(h)), _ => None };
+                let hops = match &val { V::AsPath(h) | V::As4Path(h) => Some(erase_flat(h)), _ => None };
                 let rv = val.ref_value();
                 if rv.as_ref().map(|v| v.len()).unwrap_or(0) > 65535 { return Ok(()); }
                 judge_encoding(val.code(), &bytes, rv.as_deref(), hops.as_deref())?;
-                let want = format!("typed:{}", show_v(&val));
-                if field(reply, "dec=") != Some(want.as_str()) { return Err(format!("decoding the encoding gives `{}`", field(reply, "dec=").unwrap_or("?"))); }
-                if field(reply, "same=") != Some("true") { return Err("decoded value is not == the original".into()); }
+                // the decoded value: the original – for a hop path, the hop sequence it stands for (an AS_SEQUENCE
+                // held as one segment hop arrives as its ASNs; the storage width of segment hops is private)
+                let want = format!("typed:{}", show_v(&normal_form(&val)));
+                if field(reply, "dec=") != Some(want.as_str()) { return Err(format!("decoding the encoding gives `{}`", field(reply, "dec=").unwrap_or("?").chars().take(120).collect::<String>())); }
+                // `==`: demanded whenever the value is its own hop sequence (Rust's == is blind to the storage
+                // width); for a hop path holding an AS_SEQUENCE as one segment hop the decoded value is the
+                // normal form and what `==` says about the pair is compared with the model only
+                let flat = match &val { V::AsPath(h) | V::As4Path(h) => is_flat(h), _ => true };
+                if flat && field(reply, "same=") != Some("true") { return Err("decoded value is not == the original".into()); }
                 Ok(())
             }
             ["dec", ws, hx] => {
@@ -611,17 +752,22 @@ impl Prop for C04 {
                 if !reply.starts_with("ok ") { return Err(format!("a complete attribute gave `{}`", reply)); }
                 if field(reply, "rest=") != Some(rest.len().to_string().as_str()) { return Err("wrong number of bytes consumed".into()); }
                 let got = reply.split(' ').nth(1).unwrap_or("");
-                let Some(cf) = canon_flags(tc) else {
-                    let want = format!("unimpl:{}:{}:{}", fl, tc, hex(v));
-                    return if got == want { Ok(()) } else { Err(format!("unrecognised type {}: expected `{}`", tc, want)) };
-                };
+                // unrecognised type codes are the subject of C07: compared with the model only
+                let Some(cf) = canon_flags(tc) else { return Ok(()) };
                 if !ref_rule(tc, four, v) {
-                    let want = format!("invalid:{}:{}:{}", cf, tc, hex(v));
-                    return if got == want { Ok(()) } else {
+                    // surfaced as invalid, carrying the raw value bytes (which flags the Invalid carries the
+                    // property does not say)
+                    return if invalid_carries(got, tc, v) { Ok(()) } else {
                         Err(format!("value of {} bytes violates the length rule of type {} but was surfaced as `{}`", v.len(), tc, got.chars().take(60).collect::<String>())) };
                 }
                 let want = format!("typed:{}", ref_decode(tc, four, v).ok_or("ref")?);
-                if got != want { return Err(format!("well-formed value of type {} decoded as `{}`", tc, got.chars().take(80).collect::<String>())); }
+                if got != want {
+                    // a well-formed value under flags that are not the type's (optional/transitive bits differ):
+                    // the property speaks about canonical encodings and about length rules; a receiver that
+                    // surfaces such an attribute as invalid (RFC 7606 3.c) conforms as well
+                    if fl & 0xC0 != cf & 0xC0 && invalid_carries(got, tc, v) { return Ok(()); }
+                    return Err(format!("well-formed value of type {} decoded as `{}`", tc, got.chars().take(80).collect::<String>()));
+                }
                 // the decoded value re-encodes canonically
                 let re = unhex(field(reply, "re=").ok_or("no re")?).ok_or("re-encoding failed")?;
                 if v.len() <= 65535 {
@@ -647,9 +793,9 @@ impl Prop for C04 {
                         return if reply == "err" { Ok(()) } else { Err("a section with an attribute cut short was accepted".into()) };
                     };
                     want.push(match canon_flags(tc) {
-                        None => format!("unimpl:{}:{}:{}", fl, tc, hex(v)),
-                        Some(cf) if !ref_rule(tc, four, v) => format!("invalid:{}:{}:{}", cf, tc, hex(v)),
-                        Some(_) if !four && tc == 17 => "?".to_string(),
+                        None => "?".to_string(),                                     // C07's subject
+                        Some(_) if !ref_rule(tc, four, v) => format!("invalid:*:{}:{}", tc, hex(v)),
+                        Some(cf) if fl & 0xC0 != cf & 0xC0 => format!("typed-or-invalid:{}:{}:{}", tc, hex(v), ref_decode(tc, four, v).ok_or("ref")?),
                         Some(_) => format!("typed:{}", ref_decode(tc, four, v).ok_or("ref")?),
                     });
                     rest = r;
@@ -657,6 +803,18 @@ impl Prop for C04 {
                 let got: Vec<&str> = match reply.strip_prefix("ok ") { Some("-") => vec![], Some(t) => t.split('|').collect(), None => return Err(format!("complete attributes gave `{}`", reply)) };
                 if got.len() != want.len() { return Err(format!("{} attributes on the wire, {} decoded", want.len(), got.len())); }
                 for (g, w) in got.iter().zip(&want) {
+                    if let Some(r) = w.strip_prefix("invalid:*:") {
+                        let p: Vec<&str> = g.split(':').collect();
+                        if p.len() == 4 && p[0] == "invalid" && format!("{}:{}", p[2], p[3]) == r { continue; }
+                        return Err(format!("attribute decoded as `{}` although its value violates the type's length rule (expected invalid with the raw value)", g.chars().take(60).collect::<String>()));
+                    }
+                    if let Some(r) = w.strip_prefix("typed-or-invalid:") {
+                        let mut it = r.splitn(3, ':');
+                        let (tc, hx, txt) = (it.next().unwrap_or(""), it.next().unwrap_or(""), it.next().unwrap_or(""));
+                        let p: Vec<&str> = g.split(':').collect();
+                        if *g == format!("typed:{}", txt) || (p.len() == 4 && p[0] == "invalid" && p[2] == tc && p[3] == hx) { continue; }
+                        return Err(format!("attribute decoded as `{}`, reference says `typed:{}`", g.chars().take(60).collect::<String>(), txt.chars().take(60).collect::<String>()));
+                    }
                     if w != "?" && g != w { return Err(format!("attribute decoded as `{}`, reference says `{}`", g.chars().take(60).collect::<String>(), w.chars().take(60).collect::<String>())); }
                 }
                 Ok(())
@@ -664,22 +822,34 @@ impl Prop for C04 {
             ["msg", hx] => {
                 let bs = unhex(hx).ok_or("hex")?;
                 let mut rest: &[u8] = &bs;
-                let mut want_ok = true;
+                // Some(true) = must be accepted, Some(false) = must be rejected, None = the property is silent
+                let mut must_reject = false;
+                let mut silent = false;
+                let mut seen: Vec<u8> = Vec::new();
                 while !rest.is_empty() {
                     match ref_split(rest) {
-                        None => { want_ok = false; break; }
+                        None => { must_reject = true; break; }       // an attribute cut short: the section does not parse
                         Some((_, tc, v, r)) => {
-                            // RFC 4760: MP_REACH_NLRI has AFI(2) SAFI(1) NH-len(1) reserved(1); MP_UNREACH_NLRI AFI(2) SAFI(1)
-                            if tc == 14 && v.len() < 5 { want_ok = false; break; }
-                            if tc == 15 && v.len() < 3 { want_ok = false; break; }
+                            if tc == 14 || tc == 15 {
+                                match mp_class(tc, v) {
+                                    Mp::Short => { must_reject = true; break; }
+                                    Mp::Plain => {}
+                                    Mp::Other => silent = true,
+                                }
+                            }
+                            // the same attribute twice (RFC 7606 3.g) is nothing the property speaks about
+                            if seen.contains(&tc) { silent = true; }
+                            seen.push(tc);
                             rest = r;
                         }
                     }
                 }
-                match (want_ok, reply) {
-                    (true, "ok") | (false, "err") => Ok(()),
-                    (true, _) => Err(format!("an UPDATE whose attributes are complete (length-rule violations are to be surfaced as invalid) gave `{}`", reply)),
-                    (false, _) => Err(format!("a malformed multiprotocol NLRI attribute / cut-short attribute did not reject the message: `{}`", reply)),
+                match (must_reject, silent, reply) {
+                    (true, _, "err") => Ok(()),
+                    (true, _, _) => Err(format!("an MP_REACH_NLRI / MP_UNREACH_NLRI shorter than its fixed part (or an attribute cut short) did not reject the message: `{}`", reply)),
+                    (false, true, "ok") | (false, true, "err") => Ok(()),
+                    (false, false, "ok") => Ok(()),
+                    (false, _, _) => Err(format!("an UPDATE whose attributes are complete (length-rule violations are to be surfaced as invalid, not to fail the message) gave `{}`", reply)),
                 }
             }
             _ => Ok(()),
@@ -710,6 +880,18 @@ impl Prop for C04 {
                     Some(t) => { let n = t.split('|').count(); format!("decall{}:{}", w, if n > 3 { ">3".to_string() } else { n.to_string() }) }
                     None => format!("decall{}:{}", w, reply),
                 }
+            }
+            "msg" => {
+                // which kind of multiprotocol attribute the section holds (worst first)
+                let bs = it.next().and_then(unhex).unwrap_or_default();
+                let mut rest: &[u8] = &bs;
+                let (mut short, mut other, mut plain) = (false, false, false);
+                while let Some((_, tc, v, r)) = ref_split(rest) {
+                    if tc == 14 || tc == 15 { match mp_class(tc, v) { Mp::Short => short = true, Mp::Other => other = true, Mp::Plain => plain = true } }
+                    rest = r;
+                    if rest.is_empty() { break; }
+                }
+                format!("msg:{}:{}", if short { "mp-short" } else if other { "mp-other" } else if plain { "mp-plain" } else { "no-mp" }, reply)
             }
             _ => format!("{}:{}", op, reply),
         }
